@@ -1,4 +1,5 @@
 mod common;
+mod c04;
 mod c10;
 mod tsx_client;
 mod tsx_server;
@@ -13,6 +14,7 @@ fn main() {
     let cases = common::read_cases(&args[2]);
     match args[1].as_str() {
         "c10" => c10::run(&cases),
+        "c04" => c04::run(&cases),
         "c05" => tsx_client::run(&cases, false),
         "c07" => tsx_client::run(&cases, true),
         "c06" => tsx_server::run(&cases),
